@@ -169,12 +169,11 @@ end
 
 /-- the root call: never the AttributeError, and exactly the expected owners -/
 theorem finalCheckRoot_spec (D : Defs) (E : List Nat) (roots : List Tree)
-    (hW : enteredWF E roots = true) (hM : D.machineFinalAttr = false) :
+    (hW : enteredWF E roots = true) :
     finalCheckRoot D E roots = .ok (expected D E roots) := by
   simp only [enteredWF, Bool.and_eq_true] at hW
   have hloop := finalLoop_spec D E roots hW.1 [] true
-  simp only [finalCheckRoot, hloop, List.nil_append, Bool.true_and, expected, machineFires, hM, Bool.false_and,
-    Bool.false_eq_true, if_false]
+  simp only [finalCheckRoot, hloop, List.nil_append, Bool.true_and, expected, machineFires]
   cases roots with
   | nil => simp [firingL]
   | cons r rs =>
